@@ -74,6 +74,14 @@ static void op_ep_sel(int argc, char **argv) {
 	fputc('\n', OUT);
 }
 
+/* core_reinit : shut the library down and initialise it again (the next line selects a parameter set) */
+static void op_core_reinit(int argc, char **argv) {
+	(void)argc; (void)argv;
+	core_clean();
+	if (core_init() != RLC_OK) { fprintf(OUT, "core_init-failed\n"); return; }
+	fprintf(OUT, "ok\n");
+}
+
 /* ep_param <id> */
 static void op_ep_param(int argc, char **argv) {
 	if (argc < 2) { fprintf(OUT, "bad-args\n"); return; }
@@ -280,16 +288,29 @@ static void op_ep_read_bin(int argc, char **argv) {
 	uint8_t buf[4 * RLC_FP_BYTES + 16];
 	int n = bytes_parse(buf, sizeof(buf), argv[1]), caught = 0;
 	ep_t p; ep_null(p); ep_new(p);
-	RLC_TRY { ep_read_bin(p, buf, n); } RLC_CATCH_ANY { caught = 1; }
-	if (take_err() || caught) fprintf(OUT, "err");
-	else { ep_out(p); fprintf(OUT, " on=%d", ep_on_curve(p)); }
+	/* the result must not depend on what the destination held before: decode into the identity, into the generator and into junk */
+	char *res[3] = { NULL, NULL, NULL }; size_t rl[3];
+	FILE *save = OUT;
+	for (int v = 0; v < 3; v++) {
+		if (v == 0) ep_set_infty(p); else if (v == 1) ep_curve_get_gen(p); else memset(p, 0xA5, sizeof(ep_st));
+		if (v == 2) p->coord = BASIC;
+		caught = 0;
+		RLC_TRY { ep_read_bin(p, buf, n); } RLC_CATCH_ANY { caught = 1; }
+		OUT = open_memstream(&res[v], &rl[v]);
+		if (take_err() || caught) fprintf(OUT, "err");
+		else { ep_out(p); fprintf(OUT, " on=%d", ep_on_curve(p)); }
+		fclose(OUT); OUT = save;
+	}
+	fprintf(OUT, "%s", res[0]);
+	if (strcmp(res[0], res[1]) != 0 || strcmp(res[0], res[2]) != 0) fprintf(OUT, " DEST-DEPENDENT[%s|%s]", res[1], res[2]);
+	for (int v = 0; v < 3; v++) free(res[v]);
 	fputc('\n', OUT);
 }
 
 #include "ops_ep2.inc"
 
 const op_t ops_ep[] = {
-	{"ep_param", op_ep_param}, {"ep_sel", op_ep_sel}, {"ep2", op_ep2}, {"ep1", op_ep1}, {"epm", op_epm}, {"eps", op_eps}, {"ep_glv", op_ep_glv}, {"epl", op_epl}, {"epd", op_epl}, {"epla", op_epl}, {"epda", op_epl},
+	{"ep_param", op_ep_param}, {"core_reinit", op_core_reinit}, {"ep_sel", op_ep_sel}, {"ep2", op_ep2}, {"ep1", op_ep1}, {"epm", op_epm}, {"eps", op_eps}, {"ep_glv", op_ep_glv}, {"epl", op_epl}, {"epd", op_epl}, {"epla", op_epl}, {"epda", op_epl},
 	{"ep_write_bin", op_ep_write_bin}, {"ep_read_bin", op_ep_read_bin},
 	EP2_OPS
 	{NULL, NULL}
